@@ -41,24 +41,88 @@ pub fn milu_parse(args: &[&str]) -> String {
     }
 }
 
-// milu_eval <hex source>: parse, type_of and value_of in the default context
+fn classify(e: &easy_error::Error) -> &'static str {
+    let m = e.to_string();
+    if m.starts_with("division by zero") || m.starts_with("integer overflow") {
+        "arith"
+    } else if m.starts_with("index out of bounds") || m.starts_with("failed to cast index") {
+        "index"
+    } else if m.starts_with("failed to compile regex") {
+        "regex"
+    } else if m.starts_with("failed to parse integer") {
+        "parse"
+    } else {
+        "type"
+    }
+}
+
+pub fn make_props(listener: &str, connector: &str, feature: &str, source: &str, target: &str) -> crate::context::ContextProps {
+    use crate::context::{ContextProps, Feature, TargetAddress};
+    let src = match super::ops_codec::parse_target(source) {
+        TargetAddress::SocketAddr(a) => a,
+        _ => "0.0.0.0:0".parse().unwrap(),
+    };
+    ContextProps {
+        listener: String::from_utf8_lossy(&unhex(listener)).to_string(),
+        connector: if connector == "-" { None } else { Some(String::from_utf8_lossy(&unhex(connector)).to_string()) },
+        source: src,
+        target: super::ops_codec::parse_target(target),
+        request_feature: match feature {
+            "udp" => Feature::UdpForward,
+            "udpbind" => Feature::UdpBind,
+            "tcpbind" => Feature::TcpBind,
+            _ => Feature::TcpForward,
+        },
+        ..Default::default()
+    }
+}
+
+// req_texts <feature> <source> <target>: the strings the script environment exposes
+pub fn req_texts(args: &[&str]) -> String {
+    let p = make_props("-", "-", args[0], args[1], args[2]);
+    let ctx: ScriptContextRef = Arc::new(crate::rules::script_ext::create_context(Arc::new(p)));
+    let mut out = vec![];
+    for src in ["request.feature", "request.source.host", "request.source.type", "to_string(request.source.port)", "strcat([request.source])",
+                "request.target.host", "request.target.type", "to_string(request.target.port)", "strcat([request.target])"] {
+        let v = parse(src).unwrap().real_value_of(ctx.clone());
+        out.push(match v {
+            Ok(Value::String(s)) => hex(s.as_bytes()),
+            _ => "ERR".into(),
+        });
+    }
+    out.join(" ")
+}
+
+// milu_eval <hex source> [<listener> <connector> <feature> <source> <target>]
+// parse, type_of / real_type_of and real_value_of in the redproxy script environment
 pub fn milu_eval(args: &[&str]) -> String {
     let src = String::from_utf8_lossy(&unhex(args[0])).to_string();
     let v = match parse(&src) {
         Ok(v) => v,
         Err(_) => return "SYNTAX".into(),
     };
-    let ctx: ScriptContextRef = Arc::new(ScriptContext::new(Some(Default::default())));
-    let t = std::panic::catch_unwind(std::panic::AssertUnwindSafe(|| v.real_type_of(ctx.clone())));
+    let props = if args.len() >= 6 {
+        make_props(args[1], args[2], args[3], args[4], args[5])
+    } else {
+        make_props("-", "-", "tcp", "400000000:0", "U")
+    };
+    let ctx: ScriptContextRef = Arc::new(crate::rules::script_ext::create_context(Arc::new(props)));
+    let t = std::panic::catch_unwind(std::panic::AssertUnwindSafe(|| v.type_of(ctx.clone())));
     let ts = match t {
         Err(_) => return "T=PANIC".into(),
         Ok(Err(_)) => return "T=ERR".into(),
         Ok(Ok(t)) => show_type(&t),
     };
+    let rt = std::panic::catch_unwind(std::panic::AssertUnwindSafe(|| v.real_type_of(ctx.clone())));
+    let rts = match rt {
+        Err(_) => return format!("T={} RT=PANIC", ts),
+        Ok(Err(_)) => return format!("T={} RT=ERR", ts),
+        Ok(Ok(t)) => show_type(&t),
+    };
     let r = std::panic::catch_unwind(std::panic::AssertUnwindSafe(|| v.real_value_of(ctx.clone())));
     match r {
-        Err(_) => format!("T={} V=PANIC", ts),
-        Ok(Err(_)) => format!("T={} V=ERR", ts),
-        Ok(Ok(val)) => format!("T={} V={}", ts, sexp(&val)),
+        Err(_) => format!("T={} RT={} V=PANIC", ts, rts),
+        Ok(Err(e)) => format!("T={} RT={} V=ERR:{}", ts, rts, classify(&e)),
+        Ok(Ok(val)) => format!("T={} RT={} V={}", ts, rts, sexp(&val)),
     }
 }
